@@ -717,3 +717,61 @@ def invalidated_by_source(ctx, rep: Report, rule: str):
     for n in bad[:1]:
         rep.violate(Violation(rule, f"{rule}|{ast.unparse(n.value)[-40:]}", f"spec_class.build_attr_spec: `{ast.unparse(n)}` reads the raw declaration instead of `__spec_class_invalidated_by__`: `invalidated_by=\"width\"` is iterated character by character and the property is never invalidated",
                               f"{fi.module.relpath}:{n.lineno}", "spec_class.build_attr_spec"))
+
+
+def closure_captures_params(ctx, rep: Report, rule: str, outer: str = "bounded", inner: str = "validator"):
+    """The inner function decides with the very values the caller passed: the parameters of `outer` that `inner`
+    reads as free variables are never rebound in `outer` (no normalisation / coercion of a bound behind the caller's back)."""
+    rep.rules[rule] = f"{outer}(): the parameters captured by {inner}() are not rebound before capture"
+    fo = ctx.p.find_function(outer)
+    inner_defs = [n for n in ast.walk(fo.node) if isinstance(n, ast.FunctionDef) and n.name == inner and n is not fo.node]
+    if not inner_defs:
+        raise AnalysisError(f"{rule}: {outer}.<locals>.{inner} not found")
+    params = {a.arg for a in fo.node.args.args + fo.node.args.kwonlyargs}
+    local_inner = {a.arg for a in inner_defs[0].args.args} | {x.id for x in ast.walk(inner_defs[0]) if isinstance(x, ast.Name) and isinstance(x.ctx, ast.Store)}
+    captured = {x.id for x in ast.walk(inner_defs[0]) if isinstance(x, ast.Name) and isinstance(x.ctx, ast.Load)} & params - local_inner
+    if len(captured) < 2:
+        raise AnalysisError(f"{rule}: {inner} captures only {sorted(captured)}")
+    bad = []
+    for n in walk_own(fo.node):
+        if isinstance(n, ast.Name) and isinstance(n.ctx, ast.Store) and n.id in captured:
+            bad.append(n)
+    rep.oblige(rule, f"{outer}", not bad, ", ".join(sorted({b.id for b in bad})))
+    for b in bad[:1]:
+        rep.violate(Violation(rule, f"{rule}|{b.id}", f"{outer}() rebinds its parameter `{b.id}` before {inner}() captures it: the generated type no longer checks against the bound the caller wrote (e.g. a fractional bound truncated by a numeric cast)",
+                              f"{fo.module.relpath}:{b.lineno}", outer))
+
+
+def unmanaged_key_no_helpers(ctx, rep: Report, rule: str):
+    """A key attribute that is not among the managed attributes (skipped, private, explicit attrs= selection) gets an
+    Attr specification but no helper methods."""
+    rep.rules[rule] = "bootstrap: the specification built for an unmanaged key has helpers=False"
+    bs = ctx.p.find_function("spec_class.bootstrap")
+    ifs = [n for n in walk_own(bs.node) if isinstance(n, ast.If) and "self.key" in ast.unparse(n.test) and "not in" in ast.unparse(n.test)]
+    calls = [c for n in ifs for c in ast.walk(n) if isinstance(c, ast.Call) and ast.unparse(c.func).endswith("build_attr_spec")]
+    if not calls:
+        raise AnalysisError(f"{rule}: unmanaged-key branch not found in bootstrap")
+    bad = [c for c in calls if not any(k.arg == "helpers" and isinstance(k.value, ast.Constant) and k.value.value is False for k in c.keywords)]
+    rep.oblige(rule, "spec_class.bootstrap[unmanaged key]", not bad)
+    for c in bad[:1]:
+        rep.violate(Violation(rule, f"{rule}|helpers", "spec_class.bootstrap builds the specification of an unmanaged key attribute without helpers=False: with_/update_/transform_/reset_<key> helpers appear for an attribute the class does not manage (also for private keys such as `_id`)",
+                              f"{bs.module.relpath}:{c.lineno}", "spec_class.bootstrap"))
+
+
+def override_slot_name(ctx, rep: Report, rule: str):
+    """The per-instance override slot of an alias is named after the attribute the alias is bound to (one slot per alias),
+    not after its target (which several aliases may share)."""
+    rep.rules[rule] = "Alias.override_attr is derived from the alias's own attribute name"
+    ci = ctx.p.find_class("Alias")
+    c, m = ctx.p.lookup_method(ci, "override_attr")
+    if not isinstance(m, list):
+        raise AnalysisError(f"{rule}: Alias.override_attr not found")
+    rets = [n for n in ast.walk(m[0].node) if isinstance(n, ast.Return) and n.value is not None and isinstance(n.value, ast.JoinedStr)]
+    if not rets:
+        raise AnalysisError(f"{rule}: Alias.override_attr no longer returns a formatted name")
+    exprs = [ast.unparse(v.value) for r in rets for v in r.value.values if isinstance(v, ast.FormattedValue)]
+    ok = any("_owner_attr" in e for e in exprs) and not any(e in ("self.attr", "self._attr_path") for e in exprs)
+    rep.oblige(rule, "Alias.override_attr", ok, str(exprs))
+    if not ok:
+        rep.violate(Violation(rule, f"{rule}|{exprs}", f"Alias.override_attr builds the override slot name from {exprs}: two aliases of the same target share one slot, so assigning one alias changes what the other reads",
+                              f"{m[0].module.relpath}:{m[0].node.lineno}", "Alias.override_attr"))
